@@ -1,4 +1,4 @@
-import Aiortc.Model.Sdp.Session
+import Aiortc.Model.Sdp.Ops
 import Aiortc.Drv.Util
 /-! Line-protocol driver for the SDP model (C09).
 
@@ -91,7 +91,47 @@ def withArg (a : String) (f : Str → String) : String :=
   | some s => f s
   | none => "bad-arg"
 
+/-! ### `ops`: step sequences on a pool of slots (Model/Sdp/Ops.lean). Tokens: `p <slot> <text>`, `c <slot> <line>`,
+`t <slot> <line> <mid> <index>`, `h <slot>`, `a <slot> <text>`, `s <slot>`; reply: the observations joined by ` ## `. -/
+
+def parseOps : List String → Option (List Ops.Op)
+  | [] => some []
+  | "p" :: i :: a :: rest => do
+      let i ← i.toNat?; let t ← dec a; let ops ← parseOps rest; pure (.parse i t :: ops)
+  | "a" :: i :: a :: rest => do
+      let i ← i.toNat?; let t ← dec a; let ops ← parseOps rest; pure (.assign i t :: ops)
+  | "c" :: i :: a :: rest => do
+      let i ← i.toNat?; let t ← dec a; let ops ← parseOps rest; pure (.cparse i t :: ops)
+  | "t" :: i :: a :: m :: x :: rest => do
+      let i ← i.toNat?; let t ← dec a; let m ← dec m; let x ← Aiortc.Drv.parseInt? x
+      let ops ← parseOps rest; pure (.trickle i t m x :: ops)
+  | "h" :: i :: rest => do
+      let i ← i.toNat?; let ops ← parseOps rest; pure (.hostile i :: ops)
+  | "s" :: i :: rest => do
+      let i ← i.toNat?; let ops ← parseOps rest; pure (.str i :: ops)
+  | _ => none
+
+def showMid : Option (Str × Int) → String
+  | some (m, x) => " @" ++ enc m ++ " " ++ showI x
+  | none => ""
+
+def showCandBoth (r : Outcome Candidate) (mid : Option (Str × Int)) : String :=
+  r.tag showCand ++ " || " ++ (r.bind fun c => .ok (candidateToSdp c)).tag enc ++
+    (match r with | .ok _ => showMid mid | _ => "")
+
+def showObs : Ops.Obs → String
+  | .quiet => "-"
+  | .undefined => "?"
+  | .both a b => a.tag showSession ++ " || " ++ b.tag enc
+  | .cboth a mid => showCandBoth a mid
+  | .text t mid => t.tag enc ++ showMid mid
+
+def opsPool : Ops.Pool := List.replicate 4 Ops.Val.none
+
 def handleTop : List String → String
+  | "ops" :: toks => match parseOps toks with
+      | some ops => " ## ".intercalate ((Ops.run opsPool ops).map showObs)
+      | none => "bad-arg"
   | ["both", a] => withArg a fun t =>
       (parse t).tag showSession ++ " || " ++ (roundTrip t).tag enc
   | ["parse", a] => withArg a fun t => (parse t).tag showSession
